@@ -72,6 +72,20 @@ def guarded(fn, seconds=None):
         signal.signal(signal.SIGALRM, old)
 
 
+def expand(v):
+    """{"$huge": n} stands for the integer 10**n (n > 4300: more digits than the interpreter converts to text, so it
+    cannot be written into a replay file literally); expanded just before the library is called."""
+    if isinstance(v, dict):
+        if set(v) == {"$huge"}:
+            return 10 ** v["$huge"]
+        if set(v) == {"$hugeneg"}:
+            return -(10 ** v["$hugeneg"])
+        return {k: expand(x) for k, x in v.items()}
+    if isinstance(v, list):
+        return [expand(x) for x in v]
+    return v
+
+
 def render_ok(exc):
     try:
         str(exc)
@@ -167,7 +181,7 @@ def query_case(ctx, text, docs):
     if not s.ok:
         ctx.violation("str-of-compiled-query-raised:%s" % type(s.exc).__name__, case, {"error": s.desc()})
     for d in docs:
-        d2 = copy.deepcopy(d)
+        d2 = copy.deepcopy(expand(d))
         o = guarded(lambda: [m.obj for m in c.value.finditer(d2, filter_context=gen.CTX_DEFAULT)])
         classify(ctx, o, (jsonpath.JSONPathError,), "evaluate", dict(case, doc=d))
 
@@ -191,7 +205,7 @@ def pointer_case(ctx, text, docs):
                 o = guarded(fn)
                 classify(ctx, o, fam, "pointer." + name, case)
             for d in docs:
-                o = guarded(lambda: p.resolve(copy.deepcopy(d)))
+                o = guarded(lambda: p.resolve(copy.deepcopy(expand(d))))
                 classify(ctx, o, (jsonpath.JSONPointerResolutionError,), "resolve", dict(case, doc=d))
                 o = guarded(lambda: p.exists(copy.deepcopy(d)))
                 classify(ctx, o, (jsonpath.JSONPointerResolutionError,), "exists", dict(case, doc=d))
@@ -224,14 +238,16 @@ def patch_case(ctx, ops, docs):
     except Exception:  # noqa: BLE001
         key = h("patch", repr(ops))
     ctx.case(key, True)
+    ops, docs = expand(ops), [expand(d) for d in docs]
     c = guarded(lambda: jsonpath.JSONPatch(copy.deepcopy(ops)))
     if not classify(ctx, c, (jsonpath.JSONPatchError,), "JSONPatch()", case):
         ctx.count("patch_rejected")
         return
     ctx.count("patch_built")
+    case = dict(case)
     for d in docs:
         o = guarded(lambda: c.value.apply(copy.deepcopy(d)))
-        classify(ctx, o, (jsonpath.JSONPatchError,), "patch.apply", dict(case, doc=d))
+        classify(ctx, o, (jsonpath.JSONPatchError,), "patch.apply", case)
     classify(ctx, guarded(lambda: c.value.asdicts()), (jsonpath.JSONPatchError,), "asdicts", case)
     o = guarded(lambda: jsonpath.patch.apply(copy.deepcopy(ops), copy.deepcopy(docs[0])))
     classify(ctx, o, (jsonpath.JSONPatchError,), "patch.apply(fn)", case)
@@ -405,6 +421,19 @@ def run_workload(spec, ctx):
                         query_case(ctx, text, fdocs)
                         n_fn += 1
         ctx.count("function_argument_matrix_queries", n_fn)
+        # values (not texts) with more digits than the interpreter converts to text: in documents, operation values, as
+        # operands of filters and functions, in failing and passing tests, at depth
+        H, HN = {"$huge": 4400}, {"$hugeneg": 5000}
+        hdocs = [{"n": H, "arr": [H, HN, 1], "o": {"k": [H]}, "s": "x"}, [H, HN, {"n": H}], {"n": 1, "arr": [1], "o": {"k": [1]}, "s": "x"}]
+        for ops in ([{"op": "test", "path": "/n", "value": 1}], [{"op": "test", "path": "/n", "value": H}], [{"op": "test", "path": "/n", "value": HN}], [{"op": "test", "path": "/o", "value": {"k": [HN]}}], [{"op": "test", "path": "/missing", "value": H}],
+                    [{"op": "add", "path": "/big", "value": H}, {"op": "test", "path": "/big", "value": 2}], [{"op": "copy", "from": "/n", "path": "/m"}, {"op": "test", "path": "/m", "value": "x"}], [{"op": "replace", "path": "/s", "value": [H]}, {"op": "test", "path": "/s", "value": [HN]}],
+                    [{"op": "move", "from": "/arr/0", "path": "/arr/-"}, {"op": "remove", "path": "/zz"}], [{"op": "addne", "path": "/n", "value": H}], [{"op": "addap", "path": "/arr/99", "value": H}, {"op": "test", "path": "/arr/3", "value": 0}]):
+            patch_case(ctx, ops, hdocs)
+        for text in ("$..n", "$[?@.n == 1]", "$[?@.n > 1e300]", "$[?@.n < -1.5]", "$[?length(@.n) == 1]", "$[?@.n in [1, 2]]", "$[?@.arr contains 1]", "$[?value(@.n) != 1]", "$[?typeof(@.n) == 'number']", "$[?isinstance(@.n, 'number')]",
+                     "$[?@.n == @.arr[0]]", "$[?@.arr[0] > @.arr[1]]", "$[?match(@.n, 'a')]", "$[?@.n =~ /1/]", "$.arr[?@ >= 1]", "$[?count(@.arr[?@ > 1]) > 0]", "$..[?@ == 1.0]", "$[?@.o.k[0] <= 0.5]"):
+            query_case(ctx, text, hdocs)
+        for text in ("/n", "/arr/0", "/o/k/0", "/arr/-", "/n/0", "/arr/1/x"):
+            pointer_case(ctx, text, hdocs)
         for text in DIRECTED_QUERIES:
             query_case(ctx, text, ROOT_DOCS + [[{"a": v, "b": w} for v in (1, "x", None, [1], {"k": 1}, True, 1.5, "abc") for w in ("abc", [1], {"x": 1}, 2)]])
         for text in ("/" + "1" * 4301, "/a/-" + "1" * 4301, "0+" + "1" * 4301, "1" * 4301, "1" * 4301 + "#", "/#" + "1" * 4301, "/#abc", "/a\\", "/\\u00e9", "/\\ud83d", "/\\", "\\", "/%", "/%zz", "/~", "/~2", "a", " /a", "/" + "9" * 30, "/-" + "9" * 30, "/#", "/#-1", "/#1e2", "/a/#", "0#", "0", "1#", "0+1", "0-1", "0+10", "0+99999999999999999999999", "/\x00", "/퟿"):
@@ -470,6 +499,8 @@ def replay(case, ctx):
 
 def _replay(case, ctx):
     kind = case.get("kind")
+    if "doc" in case and "$integer-of-bits" in json.dumps(case["doc"], default=repr) and "docs" in case:
+        case = {k: v for k, v in case.items() if k != "doc"}   # the one document could not be written literally: use the symbolic list
     if kind == "canary":
         CANARY["n"] = 39
         canary(ctx)
